@@ -1,5 +1,167 @@
-/- C15 — property theorems only. -/
+/-
+C15 — GeoTIFF/COG written through GDAL reads back identical.
+
+Property theorems about the *decision core* only (`OdcGeo/Model/C15.lean`).  The Lean part of
+C15 is deliberately small: that an independent reader decodes the same pixels / transform /
+CRS / nodata is established by the GDAL round trip of the harness, with GDAL + rasterio
+encode and decode trusted; no theorem here speaks about file bytes.
+-/
 import OdcGeo.Model.C15
+import OdcGeo.Lemmas.C05
+import Mathlib.Tactic.Linarith
+
 namespace OdcGeo.C15
+open OdcGeo.C05 (adjustBlocksize alignUp alignUp_dvd alignUp_ge alignUp_lt YX)
+
+/-! ## block sizes -/
+
+theorem alignUp16_mono (a b : Nat) (h : a ≤ b) : alignUp a 16 ≤ alignUp b 16 := by
+  unfold alignUp OdcGeo.C05.alignDown; omega
+
+/-- `blocksize_mult16_le`: both block sizes handed to GDAL are multiples of 16, never larger
+than the requested block rounded up, and for an image side smaller than the block they shrink
+to that side rounded up (by less than 16).  `None` means 512. -/
+theorem blocksize_mult16_le (blocksize : Option Nat) (w h : Nat) (fl : Bool) :
+    let o := cogOpts blocksize w h fl
+    let b := blocksize.getD 512
+    16 ∣ o.blockxsize ∧ 16 ∣ o.blockysize ∧
+    o.blockxsize ≤ alignUp b 16 ∧ o.blockysize ≤ alignUp b 16 ∧
+    (0 < w → w < b → w ≤ o.blockxsize ∧ o.blockxsize < w + 16) ∧
+    (0 < h → h < b → h ≤ o.blockysize ∧ o.blockysize < h + 16) ∧
+    (¬(0 < w ∧ w < b) → o.blockxsize = alignUp b 16) ∧
+    (¬(0 < h ∧ h < b) → o.blockysize = alignUp b 16) := by
+  intro o b
+  have key : ∀ d, 16 ∣ adjustBlocksize b d ∧ adjustBlocksize b d ≤ alignUp b 16 ∧
+      (0 < d → d < b → d ≤ adjustBlocksize b d ∧ adjustBlocksize b d < d + 16) ∧
+      (¬(0 < d ∧ d < b) → adjustBlocksize b d = alignUp b 16) := by
+    intro d
+    unfold adjustBlocksize
+    by_cases hd : 0 < d ∧ d < b
+    · rw [if_pos hd]
+      exact ⟨alignUp_dvd _ 16 (by decide), alignUp16_mono _ _ (by omega),
+        fun _ _ => ⟨alignUp_ge _ 16 (by decide), alignUp_lt _ 16 (by decide)⟩, fun h => absurd hd h⟩
+    · rw [if_neg hd]
+      exact ⟨alignUp_dvd _ 16 (by decide), Nat.le_refl _, fun h1 h2 => absurd ⟨h1, h2⟩ hd, fun _ => rfl⟩
+  obtain ⟨x1, x2, x3, x4⟩ := key w
+  obtain ⟨y1, y2, y3, y4⟩ := key h
+  exact ⟨x1, y1, x2, y2, x3, y3, x4, y4⟩
+
+/-- the "will be adjusted" warning fires exactly for requested sizes that are not multiples of 16 -/
+theorem blocksize_warning (blocksize : Option Nat) (w h : Nat) (fl : Bool) :
+    (cogOpts blocksize w h fl).warns = true ↔ ¬ 16 ∣ blocksize.getD 512 := by
+  simp [cogOpts, Nat.dvd_iff_mod_eq_zero]
+
+/-- predictor 3 for floats, 2 otherwise -/
+theorem predictor_choice (blocksize : Option Nat) (w h : Nat) (fl : Bool) :
+    (cogOpts blocksize w h fl).predictor = if fl then 3 else 2 := rfl
+
+/-! ## overview levels -/
+
+/-- `default_levels`: no overviews by default exactly for images with a side under 512 pixels,
+otherwise the five powers of two 2…32; an explicit list is used as given. -/
+theorem default_levels (w h : Nat) :
+    (levelsFor none w h = [] ↔ min w h < 512) ∧
+    (512 ≤ min w h → levelsFor none w h = [2, 4, 8, 16, 32]) ∧
+    ∀ l, levelsFor (some l) w h = l := by
+  refine ⟨?_, ?_, fun _ => rfl⟩
+  · simp only [levelsFor, defaultLevels]
+    by_cases h : min w h < 512
+    · simp [h]
+    · simp [h, List.range_succ]
+  · intro h
+    simp only [levelsFor, defaultLevels]
+    rw [if_neg (by omega)]
+    decide
+
+/-! ## band layout -/
+
+/-- `layout_normalises_to_band_first`: whenever the layout is accepted the normalised height ×
+width is the GeoBox shape, no element is lost, and output element `[k, y, x]` is input element
+`[y, x, k]` for band-last input (band order preserved by the transpose) and `[k, y, x]` itself
+for band-first / 2-D input. -/
+theorem layout_normalises_to_band_first (shape : List Nat) (g : YX) (l : Layout)
+    (h : normLayout shape g = .ok l) :
+    g = ⟨l.h, l.w⟩ ∧ l.nbands * l.h * l.w = shape.foldl (· * ·) 1 ∧
+    (∀ k y x, srcIndex l k y x = if l.transposed then (y, x, k) else (k, y, x)) ∧
+    (l.transposed = true ↔ ∃ a b c, shape = [a, b, c] ∧ g = ⟨a, b⟩) := by
+  unfold normLayout at h
+  split at h
+  · rename_i hh ww
+    split at h
+    · rename_i hg; cases h
+      refine ⟨hg, by simp, fun _ _ _ => rfl, by simp⟩
+    · cases h
+  · rename_i a b c
+    split at h
+    · rename_i hg; cases h
+      refine ⟨hg, by simp [Nat.mul_comm, Nat.mul_left_comm], fun _ _ _ => rfl, ?_⟩
+      simp only [true_iff]
+      exact ⟨a, b, c, rfl, hg⟩
+    · rename_i hg
+      split at h
+      · cases h
+      · rename_i hg2; cases h
+        refine ⟨by simpa using hg2, by simp [Nat.mul_assoc], fun _ _ _ => rfl, ?_⟩
+        simp only [Bool.false_eq_true, false_iff]
+        rintro ⟨a', b', c', he, hg'⟩
+        cases he
+        exact hg hg'
+  · cases h
+
+/-- what is rejected: 3-D arrays matching the GeoBox on neither side (`ValueError`), 2-D arrays
+of another shape (`AssertionError`), other ranks (`ValueError`) -/
+theorem layout_rejects (a b c : Nat) (g : YX) (h1 : g ≠ ⟨a, b⟩) (h2 : g ≠ ⟨b, c⟩) :
+    normLayout [a, b, c] g = .error .valueError ∧
+    (g ≠ ⟨a, b⟩ → normLayout [a, b] g = .error .assertion) ∧
+    normLayout [a] g = .error .valueError := by
+  simp [normLayout, h1, h2]
+
+/-- the ambiguous case: an `n×n×n` array over an `n×n` GeoBox is always read as band-last
+(bands = last axis), whatever the caller meant -/
+theorem layout_ambiguous_cube (n : Nat) :
+    normLayout [n, n, n] ⟨n, n⟩ = .ok ⟨n, n, n, true⟩ ∧ ambiguous [n, n, n] ⟨n, n⟩ = true := by
+  simp [normLayout, ambiguous]
+
+/-! ## overwrite guard -/
+
+/-- `overwrite_table`: an existing destination without `overwrite` raises and nothing is
+unlinked or written; with `overwrite` it is unlinked, then written; a missing destination is
+just written; memory destinations never touch the file system. -/
+theorem overwrite_table :
+    writePlan false true false = ([], true) ∧
+    writePlan false true true = ([.unlink, .write], false) ∧
+    (∀ o, writePlan false false o = ([.write], false)) ∧
+    (∀ e o, writePlan true e o = ([], false)) := by
+  refine ⟨rfl, rfl, ?_, ?_⟩
+  · intro o; cases o <;> rfl
+  · intro e o; cases e <;> cases o <;> rfl
+
+/-- an unlink happens only when the destination exists and overwriting was requested, and an
+error leaves no action behind -/
+theorem unlink_only_on_overwrite (m e o : Bool) :
+    (Act.unlink ∈ (writePlan m e o).1 ↔ (m = false ∧ e = true ∧ o = true)) ∧
+    ((writePlan m e o).2 = true → (writePlan m e o).1 = []) := by
+  cases m <;> cases e <;> cases o <;> simp [writePlan]
+
+/-! ## compression option normalisation -/
+
+theorem norm_compression_table (s : String) (kv : List (String × String)) :
+    normCompressionOpts (.flag true) = [("compress", "deflate"), ("zlevel", "2")] ∧
+    normCompressionOpts (.flag false) = [("compress", "None")] ∧
+    normCompressionOpts (.name s) = [("compress", s)] ∧
+    normCompressionOpts (.opts kv) = kv := by
+  refine ⟨by decide, rfl, rfl, rfl⟩
+
+/-- overview size reference: `⌈w/l⌉ × ⌈h/l⌉` covers the image and wastes less than one cell -/
+theorem ovr_size_ceil (w h l : Nat) (hl : 0 < l) :
+    w ≤ (ovrSize w h l).1 * l ∧ (ovrSize w h l).1 * l < w + l ∧
+    h ≤ (ovrSize w h l).2 * l ∧ (ovrSize w h l).2 * l < h + l := by
+  have key : ∀ N, N ≤ ((N + l - 1) / l) * l ∧ ((N + l - 1) / l) * l < N + l := by
+    intro N
+    have h1 := Nat.div_add_mod (N + l - 1) l
+    have h2 := Nat.mod_lt (N + l - 1) hl
+    rw [Nat.mul_comm] at h1
+    constructor <;> omega
+  exact ⟨(key w).1, (key w).2, (key h).1, (key h).2⟩
 
 end OdcGeo.C15
